@@ -218,7 +218,7 @@ def check_run(run, pre, classes):
                 out.append(("status", "unexpected status %s for %s" % (res, " ".join(op))))
                 continue
             add(unhex(op[1]), (h["inv"], h["ret"], "rem", None, r))
-        elif o == "get":
+        elif o in ("get", "geti"):
             w = res.split()
             if w[0] == "OK":
                 add(unhex(op[1]), (h["inv"], h["ret"], "read", None, w[1] if len(w) > 1 else "NULLVALUE"))
@@ -274,7 +274,7 @@ def check_run(run, pre, classes):
                     add(k, (h["inv"], h["ret"], "read", None, v))
             universe = set(perkey) | set(pre)
             for hh in run.h:
-                if hh["op"][0] in ("put", "puti", "remove", "get"):
+                if hh["op"][0] in ("put", "puti", "remove", "get", "geti"):
                     universe.add(unhex(hh["op"][1]))
             for k in universe:
                 if k in keys or not in_interval(k, lk, le, rk, re_):
